@@ -141,10 +141,19 @@ class Prog:
             a._qdata = np.ascontiguousarray(a._qdata[perm])
             a._qdata_sorted = False
             self.count('qdata.unsorted_input')
-        slot = Slot(a, dense, labels, [SLeg.from_leg(l) for l in legs], qt, 'make')
+        slot = Slot(a, dense, labels, [self.sleg_of(l) for l in legs], qt, 'make')
         if 'c03' in self.monitors:
             self._fresh.append((slot, T.array_fingerprint(a)))
         return slot
+
+    def sleg_of(self, leg):
+        """Shadow of an input leg; an input LegPipe (e.g. the conjugate of a live pipe used as contraction partner) keeps its
+        sub-leg structure so that a later split_legs is predicted correctly."""
+        from tenpy.linalg.charges import LegPipe
+        if isinstance(leg, LegPipe):
+            from vf import tops
+            return tops._pipe_sleg(self, 'operand', leg, [self.sleg_of(l) for l in leg.legs])
+        return SLeg.from_leg(leg)
 
     def add_slot(self, slot):
         self.slots.append(slot)
